@@ -32,7 +32,8 @@ PLUMBING = ['compileNode', 'compileNodeWithoutResult', 'compileNodeWithResult', 
             'compileTryExpressionNode', 'compileLabeledExpressionNode', 'compileLogicalExpressionNode',
             'nilCoalescing', 'logicalOr', 'logicalAnd',
             # node compilers simple enough to be verified instead of assumed
-            'compileAsExpressionNode', 'compileMustExpressionNode', 'compileThrowExpressionNode']
+            'compileAsExpressionNode', 'compileMustExpressionNode', 'compileThrowExpressionNode',
+            'compileAwaitExpressionNode']
 
 def body(name):
     m = re.search(r'^func \(c \*BytecodeCompiler\) %s\((.*?)\)\s*([^{\n]*)\{\n(.*?)^\}\n' % name, SRC, re.M | re.S)
@@ -103,6 +104,7 @@ hand = {
 }
 hand['compileAsExpressionNode'] = HEAD + "\n" + ONE      # value, type, AS pops the type
 hand['compileMustExpressionNode'] = HEAD + "\n" + ONE    # value, MUST peeks
+hand['compileAwaitExpressionNode'] = HEAD + "\n" + ONE   # promise, the await opcodes replace it by its result
 hand['compileThrowExpressionNode'] = HEAD + "\n" + ONE + "\n  ensures dead: dd(c)"   # THROW never falls through
 for n in ('nilCoalescing', 'logicalOr', 'logicalAnd'):
     hand[n] = HEAD + "\n" + PROTO_NOFLAG + """
